@@ -7,7 +7,7 @@ OUTSIDE = ''
 
 def I(name, defs, steps, nthreads, bounds, **kw):
     d = {'name': name, 'src': 'tt_kernel.cpp', 'engine': 'cbmc-seq', 'steps': steps, 'spin_loops': True, 'defs': defs,
-         'unwind': 3, 'nthreads': nthreads, 'timeout': 1500, 'shims': ['moodycamel'],
+         'unwind': 3, 'nthreads': nthreads, 'timeout': 1500, 'shims': ['moodycamel'], 'models': ['aligned_alloc'], 'devirt': True,
          'repo_sources': ['dispenso/timed_task.cpp'],
          'promote_icalls': [r'_Function_handler.*TimedTaskImpl.*9_M_invoke'],
          'no_inline': ['_ZL5setupv', '_ZL6finalev'],
@@ -17,5 +17,6 @@ def I(name, defs, steps, nthreads, bounds, **kw):
 
 
 INSTANCES = [
+    I('dbg', {'VF_TIMES': 1, 'VF_KICKS': 1, 'VF_WORKERS': 1, 'VF_ONLY_SETUP': 1}, 4, 3, 'x', engine='cbmc', tiers=['dbg']),
     I('k1', {'VF_TIMES': 1, 'VF_KICKS': 1, 'VF_WORKERS': 1}, 4, 3, 'x'),
 ]
